@@ -60,9 +60,18 @@ def hasRank (shape : Option Shape) (r : Nat) : Bool :=
 def fabs (x : Float) : Float := if x < 0 then -x else x
 def fmax (a b : Float) : Float := if a < b then b else a
 
-/-- `math.isclose(a, b, rel_tol, abs_tol)` for finite values. -/
-def isclose (a b rel abs : Float) : Bool :=
-  a == b || fabs (a - b) <= fmax (rel * fmax (fabs a) (fabs b)) abs
+/-- `math.isclose(a, b, rel_tol, abs_tol)` for finite values, over ANY carrier that has the operations the
+C implementation uses (`a == b`, `fabs(a-b)`, two `fmax`, one product).  The driver runs it at `Float` (IEEE
+binary64, `isclose` below); the theorems `isclose_*` of `OV.Props.C19` are about the same definition at an ordered
+field (exact arithmetic: rounding inside the test itself is not modelled). -/
+def iscloseG {α : Type} [Sub α] [Mul α] [Neg α] [OfNat α 0] [LT α] [LE α] [DecidableLT α] [DecidableLE α] [BEq α]
+    (a b rel abs : α) : Bool :=
+  let ab : α → α := fun x => if x < 0 then -x else x
+  let mx : α → α → α := fun x y => if x < y then y else x
+  a == b || decide (ab (a - b) ≤ mx (rel * mx (ab a) (ab b)) abs)
+
+/-- `math.isclose(a, b, rel_tol, abs_tol)` at IEEE binary64. -/
+def isclose (a b rel abs : Float) : Bool := iscloseG a b rel abs
 
 /-- A scalar *float* pattern literal (`_matcher._match_constant`): rank 0 and `isclose(·, expected, 1e-5, 1e-8)`. -/
 def constMatches (rank : Nat) (v expected : Float) : Bool :=
